@@ -11,6 +11,7 @@ CONSTANTS MaxCmds, MaxItems,
           SetupMode,    \* "empty": start from the empty history; "typical": one well-formed command first;
                         \* "chdel": a two-destination consistentHashing route of which one destination was deleted
                         \* "routed": one well-formed route (destinations with and without pickle=true, grafanaNet)
+                        \* "config": a top-level configuration (every class) the table is built from first
           CmdMode,      \* "all" | "typical" | "api" (deletes) | "mods" (modify/delete/view) | "none"
                         \* "names": the rewriters / aggregations that produce degenerate metric names
           ItemMode      \* "all" | "rule" (only traffic the rules of the history match)
@@ -28,13 +29,14 @@ GInit == /\ items = <<>>
          /\ \/ SetupMode = "empty" /\ cmds = <<>> /\ base = 0
             \/ SetupMode = "typical" /\ base = 1 /\ \E s \in Typical : cmds = <<s>>
             \/ SetupMode = "routed" /\ base = 1 /\ \E s \in SinkRoutes : cmds = <<s>>
+            \/ SetupMode = "config" /\ base = 1 /\ \E s \in ConfigCmds : cmds = <<s>>
             \/ /\ SetupMode = "chdel" /\ base = 2
                /\ \E sp \in BOOLEAN :
                      cmds = <<Cmd("addRoute", "cmd", "consistentHashing", "k1", 2, "none", "typical", sp),
                               Cmd("delDest", "api", "-", "k1", 0, "none", "typical", FALSE)>>
 
 AddCmd  == /\ items = <<>> /\ Len(cmds) < base + MaxCmds
-           /\ \E c \in Pool : cmds' = Append(cmds, c)
+           /\ \E c \in Pool : (FirstOnly(c) => cmds = <<>>) /\ cmds' = Append(cmds, c)
            /\ UNCHANGED <<items, base>>
 AddItem == /\ Len(cmds) = base + MaxCmds /\ Len(items) < MaxItems
            /\ \E it \in (IF ItemMode = "rule" THEN RuleItems ELSE Items) : items' = Append(items, it)
